@@ -673,6 +673,74 @@ fn emit(f: &SrcFile, s: usize, e: usize, edits: &mut Vec<Edit>) -> Emitted {
     Emitted { text, src_lines }
 }
 
+/// R13 data extraction: flatten the integer literals of a constant initialiser (source order) and compute a
+/// shape signature that pins the layout (struct names, field names and order, array lengths).
+fn flatten_data(e: &Expr, lits: &mut Vec<String>, f: &SrcFile) -> String {
+    match e {
+        Expr::Lit(l) => match &l.lit {
+            syn::Lit::Int(i) => {
+                lits.push(i.base10_digits().to_string());
+                "#".to_string()
+            }
+            _ => die("R13: non-integer literal in constant data"),
+        },
+        Expr::Unary(u) => {
+            if let (syn::UnOp::Neg(_), Expr::Lit(l)) = (&u.op, &*u.expr) {
+                if let syn::Lit::Int(i) = &l.lit {
+                    lits.push(format!("-{}", i.base10_digits()));
+                    return "#".to_string();
+                }
+            }
+            die("R13: unsupported unary expression in constant data")
+        }
+        Expr::Array(a) => {
+            let shapes: Vec<String> = a.elems.iter().map(|x| flatten_data(x, lits, f)).collect();
+            let mut out = String::from("[");
+            let mut i = 0;
+            let mut first = true;
+            while i < shapes.len() {
+                let mut j = i;
+                while j < shapes.len() && shapes[j] == shapes[i] {
+                    j += 1;
+                }
+                if !first {
+                    out.push(',');
+                }
+                first = false;
+                out.push_str(&format!("{}*{}", j - i, shapes[i]));
+                i = j;
+            }
+            out.push(']');
+            out
+        }
+        Expr::Call(c) => {
+            let name = norm_sel(f.slice(c.func.span()));
+            let args: Vec<String> = c.args.iter().map(|x| flatten_data(x, lits, f)).collect();
+            format!("{}({})", name, args.join(","))
+        }
+        Expr::Struct(st) => {
+            let name = norm_sel(f.slice(st.path.span()));
+            let mut fs = vec![];
+            for fv in &st.fields {
+                let fname = match &fv.member {
+                    syn::Member::Named(i) => i.to_string(),
+                    syn::Member::Unnamed(i) => i.index.to_string(),
+                };
+                fs.push(format!("{}:{}", fname, flatten_data(&fv.expr, lits, f)));
+            }
+            if st.rest.is_some() {
+                die("R13: struct update syntax in constant data");
+            }
+            format!("{}{{{}}}", name, fs.join(","))
+        }
+        Expr::Reference(r) => format!("&{}", flatten_data(&r.expr, lits, f)),
+        Expr::Paren(p) => flatten_data(&p.expr, lits, f),
+        Expr::Group(p) => flatten_data(&p.expr, lits, f),
+        Expr::Path(p) => format!("@{}", norm_sel(f.slice(p.span()))),
+        _ => die(&format!("R13: unsupported expression in constant data at {}:{}", f.rel, f.line_of(f.range(e.span()).0))),
+    }
+}
+
 fn find_in_items<'x>(items: &'x [Item], path: &[String], f: &SrcFile) -> Vec<&'x Item> {
     // path: sequence like ["mod decompress", "fn step_1"] / ["struct X"] / ["const L"]
     if path.is_empty() {
@@ -804,6 +872,48 @@ fn main() {
             Segment::Text(t) => push(&mut out, &mut out_line, t),
             Segment::ConstFoldHere => {
                 push(&mut out, &mut out_line, "\u{0}CONSTFOLD\u{0}\n");
+            }
+            Segment::Data(dd) => {
+                if !files.contains_key(&dd.file) {
+                    files.insert(dd.file.clone(), SrcFile::load(root, &dd.file));
+                }
+                let f = &files[&dd.file];
+                let found: Vec<&Item> =
+                    find_in_items(&f.ast.items, &dd.path, f).into_iter().filter(|it| cfg.attrs_enabled(item_attrs(it))).collect();
+                if found.is_empty() {
+                    die(&format!("data item not found: {} :: {}", dd.file, dd.path.join(" :: ")));
+                }
+                let (expr, sp) = match found[0] {
+                    Item::Const(c) => (&*c.expr, c.span()),
+                    Item::Static(c) => (&*c.expr, c.span()),
+                    _ => die("R13: data item must be const or static"),
+                };
+                let mut lits = vec![];
+                let shape = flatten_data(expr, &mut lits, f);
+                if let Some(want) = &dd.shape {
+                    if want != &shape {
+                        die(&format!("R13: shape of {} changed: expected {} found {}", dd.path.join("::"), want, shape));
+                    }
+                }
+                let (s0, e0) = f.range(sp);
+                let mut t = format!("// @data {} :: {} ({} literals) lines {}-{} shape={}\n", dd.file, dd.path.join(" :: "), lits.len(), f.line_of(s0), f.line_of(e0), shape);
+                let chunk = if dd.chunk == 0 { lits.len().max(1) } else { dd.chunk };
+                if lits.len() % chunk != 0 {
+                    die(&format!("R13: {} literals not divisible by chunk {}", lits.len(), chunk));
+                }
+                let n = lits.len() / chunk;
+                t.push_str(&format!("pub open spec fn {}_len() -> int {{ {} }}\n", dd.prefix, n));
+                for k in 0..n {
+                    let body: Vec<String> = lits[k * chunk..(k + 1) * chunk].iter().map(|x| format!("{}int", x)).collect();
+                    t.push_str(&format!("pub open spec fn {}_{}() -> Seq<int> {{ seq![{}] }}\n", dd.prefix, k, body.join(", ")));
+                }
+                let gen_start = out_line;
+                push(&mut out, &mut out_line, &t);
+                items_log.push(serde_json::json!({
+                    "kind": "data", "file": dd.file, "path": dd.path.join(" :: "), "src_lines": [f.line_of(s0), f.line_of(e0)],
+                    "gen_lines": [gen_start, out_line - 1], "literals": lits.len(), "shape": shape, "props": serde_json::Value::Null, "external_body": false,
+                }));
+                *rule_counts.entry("R13-data".to_string()).or_default() += 1;
             }
             Segment::Item(idir) => {
                 if !files.contains_key(&idir.file) {
